@@ -16,6 +16,7 @@ provided the first window reaches beyond the `begin` line, which is what the
 bidder leaves buffered (`bidder_recognises_own_output` needs two more lines).
 -/
 import LA.Lemmas.UuSpecs
+import LA.Lemmas.UuBid
 namespace LA.C03
 open LA.UuRead LA.LineFilter LA.Gen.UuTables
 
@@ -66,6 +67,25 @@ example : NameOk [45] ∧ Bytes [0, 255, 10] ∧ ([[0], [255], [10]] : List (Lis
     (header LA.Uu.codec 420 [45]).length ≤ 12 ∧ (header LA.B64.codec 420 [45]).length ≤ 19 := by
   refine ⟨⟨by decide, by intro c hc; simp at hc; omega, by decide⟩, by intro b hb; simp at hb; omega,
     by decide, by decide, by decide⟩
+
+/-- **The read bidder recognises what the two write filters produce** (so the
+reader inserts the uudecode filter), for every chunking of the writes and every
+behaviour of the read-ahead window while bidding: `extra` scripts how many bytes
+beyond the requested minimum each `__archive_read_filter_ahead` call returns
+(a window is never shorter than requested and never shrinks,
+`LA.C05.window_is_stream_prefix`).  This includes the encoded empty file and
+windows that end exactly at a line end (both repaired in the C). -/
+theorem bidder_recognises_own_output (bpb mode : Nat) (name x : List Nat) (chunks : List (List Nat))
+    (extra : List Nat) (hx : chunks.flatten = x) (hb : Bytes x) (hn : NameOk name) :
+    (bid (LA.Uu.encode bpb mode name chunks) ScriptUp.ahead
+        { total := (LA.Uu.encode bpb mode name chunks).length, extra := extra }).1 = .bid 50 ∧
+    ∃ n, 50 ≤ n ∧ (bid (LA.B64.encode bpb mode name chunks) ScriptUp.ahead
+        { total := (LA.B64.encode bpb mode name chunks).length, extra := extra }).1 = .bid n := by
+  rw [uu_encode_chunking_independent, b64_encode_chunking_independent, hx]
+  exact ⟨uu_bidder mode name x extra hb hn, b64_bidder mode name x extra hb hn⟩
+
+example : NameOk [102, 105, 108, 101] ∧ Bytes ([] : List Nat) := by
+  refine ⟨⟨by decide, by intro c hc; simp at hc; omega, by decide⟩, by intro b hb; simp at hb⟩
 
 /-- `la_b64_encode` never writes a line longer than 76 characters plus the newline;
 `uu_encode` never one longer than 61 + 1. -/
